@@ -27,6 +27,7 @@ def tables_of(ts):
         rem=np.ascontiguousarray(ts.indexes_edge_removal_order, dtype=np.int32),
         mnode=np.ascontiguousarray(ts.mutations_node, dtype=np.int32),
         mpos=np.ascontiguousarray(ts.sites_position[ts.mutations_site], dtype=np.float64),
+        ntime=np.ascontiguousarray(ts.nodes_time, dtype=np.float64),
     )
 
 
@@ -155,6 +156,46 @@ def add_dead_branch(ts, rng):
         return ts, 0
 
 
+def truncate_edge(ts, rng):
+    """Cut away the left or the right part of one edge (its child is a root there).  On a simplified input
+    this creates a *single* unary event: the parent loses one child at the cut (edge removed) or gains it
+    there (edge inserted), while its other edges are unchanged at that position."""
+    if ts.num_edges == 0:
+        return ts, None
+    t = ts.dump_tables()
+    cand = [e for e in ts.edges() if e.right - e.left >= 2]
+    if not cand:
+        return ts, None
+    e = cand[int(rng.integers(0, len(cand)))]
+    mid = float(np.floor(rng.uniform(e.left + 1, e.right)))
+    keep_left = bool(rng.random() < 0.5)
+    left = t.edges.left.copy()
+    right = t.edges.right.copy()
+    if keep_left:
+        right[e.id] = mid
+    else:
+        left[e.id] = mid
+    t.edges.set_columns(left=left, right=right, parent=t.edges.parent, child=t.edges.child)
+    try:
+        t.sort()
+        t.build_index()
+        t.compute_mutation_parents()
+        return t.tree_sequence(), ("removal" if keep_left else "insertion")
+    except Exception:
+        return ts, None
+
+
+def gen_single_event(rng):
+    """A clean simulated input (no unary nodes) with exactly one edge truncated."""
+    ts, info = gen.sim_ts(rng, n=int(rng.integers(3, 9)), trees=int(rng.choice([1, 1, 2, 3, 5, 8])),
+                          historical=bool(rng.random() < 0.3))
+    ts2, how = truncate_edge(ts, rng)
+    info = dict(info)
+    info["fired"] = (["historical"] if info.get("historical") else []) + ([f"single_event_{how}"] if how else [])
+    info.update(trees=ts2.num_trees, nodes=ts2.num_nodes, edges=ts2.num_edges, muts=ts2.num_mutations, sites=ts2.num_sites)
+    return ts2, info
+
+
 def sample_unary(ts, rng):
     """Turn some locally unary non-sample nodes into samples (masked by variational_gamma's detector,
     seen by the discrete-time one)."""
@@ -251,6 +292,7 @@ def encode_count(i, tb, mask, sb):
         "sample " + " ".join("1" if b else "0" for b in mask),
         "mnode " + " ".join(str(int(x)) for x in tb["mnode"]),
         "mpos " + " ".join(f2h(x) for x in tb["mpos"]),
+        "ntime " + " ".join(f2h(x) for x in tb["ntime"]),
         "end"]) + "\n"
 
 
@@ -282,7 +324,7 @@ def run_model(text):
         elif parts[1] == "count":
             f = [x.strip() for x in parts[2].split("|")]
             out[i] = dict(flags=f[0], mut_edge=_ints(f[1]), edge_muts=_floats(f[2]), edge_span=_floats(f[3]),
-                          spec_edge=_ints(f[4]), node_samples=_floats(f[5]))
+                          spec_edge=_ints(f[4]), node_samples=_floats(f[5]), spec_weight=_ints(f[6]))
         elif parts[1] == "unary":
             f = parts[2].split()
             out[i] = dict(flags=f[0], contains=f[1] == "1", locally=f[2] == "1")
@@ -359,6 +401,26 @@ def naive_tallies(ts, mask, sb):
                 if ea[m.node] >= 0:
                     em[ea[m.node]] += below[m.node]
     return em, sp, me
+
+
+def naive_mut_weights(ts, mask):
+    """number of `mask` nodes at or below each mutation's node in the tree at the mutation's site"""
+    mask = np.asarray(mask, dtype=bool)
+    order = np.argsort(ts.nodes_time, kind="stable")
+    out = np.zeros(ts.num_mutations, dtype=np.int64)
+    for tree in ts.trees():
+        if tree.num_sites == 0:
+            continue
+        par = tree.parent_array
+        below = mask.astype(np.int64).copy()
+        for u in order:
+            p = par[u]
+            if p >= 0:
+                below[p] += below[u]
+        for site in tree.sites():
+            for m in site.mutations:
+                out[m.id] = below[m.node]
+    return out
 
 
 def naive_unary_nodes(ts, ignore=()):
